@@ -105,7 +105,9 @@ func randomBehaviour(rnd *rand.Rand) []map[string]any {
 	randEdit := func() map[string]any {
 		all := []string{"K1", "K2", "cali-a", "cali-b", "cali-c", "other"}
 		c := all[rnd.Intn(len(all))]
-		switch rnd.Intn(9) {
+		switch rnd.Intn(11) {
+		case 9, 10:
+			return m("kind", "replace", "chain", c, "pos", []int{1, 2, 9, 9}[rnd.Intn(4)], "rule", junk())
 		case 0, 1:
 			return m("kind", "ins", "chain", c, "pos", []int{0, 1, 2, 9}[rnd.Intn(4)], "rule", junk())
 		case 2:
@@ -113,7 +115,7 @@ func randomBehaviour(rnd *rand.Rand) []map[string]any {
 		case 3:
 			return m("kind", "swap", "chain", c)
 		case 4:
-			return m("kind", "restamp", "chain", c)
+			return m("kind", "restamp", "chain", c, "pos", []int{1, 9}[rnd.Intn(2)])
 		case 5:
 			return m("kind", "flush", "chain", fchains[rnd.Intn(3)])
 		case 6:
